@@ -1783,3 +1783,9 @@ M("C15-duplicate-signature-reaches-abort", "C15", "src/interrogate/interfaceMake
   "      if (hi != _wrappers_by_hash.end() && (*hi).second != nullptr &&\n          (*hi).second->_function_signature == remap->_function_signature) {\n        delete remap;\n        return nullptr;\n      }\n",
   "",
   expect="R15.1|InterfaceMaker::make_function_remap|hash_function_signature|same-signature-excluded-before-call")
+
+# ---------------------------------------------------------------- R15.23 (F-C15t)
+MUTANTS.append({"id": "C15-decltype-error-leaves-null-type", "prop": "C15", "expect": "R15.23|", "benign": False,
+  "edits": [("src/cppparser/cppBison.yxx",
+             "    // Carry on with a placeholder; a null type cannot be declared with.\n    $$ = CPPType::new_type(new CPPSimpleType(CPPSimpleType::T_unknown));\n",
+             "", 3)]})
